@@ -457,10 +457,12 @@ func runOp(w *simrt.World, b *Built, op *Op, res *OpResult) {
 	case "setopts":
 		b.P.Options = flags.Options(op.IniOpts)
 	case "iniread":
-		ip := flags.NewIniParser(b.P)
-		if op.UseKept && b.KeptIni != nil {
-			ip = b.KeptIni
+		// one IniParser per boot, as a program keeps it (state kept in it survives
+		// from a read to a later write)
+		if b.KeptIni == nil {
+			b.KeptIni = flags.NewIniParser(b.P)
 		}
+		ip := b.KeptIni
 		ip.ParseAsDefaults = op.AsDefaults
 		var err error
 		if op.File == "" {
@@ -487,7 +489,10 @@ func runOp(w *simrt.World, b *Built, op *Op, res *OpResult) {
 		}
 		classifyErr(err, res)
 	case "iniwrite":
-		ip := flags.NewIniParser(b.P)
+		if b.KeptIni == nil {
+			b.KeptIni = flags.NewIniParser(b.P)
+		}
+		ip := b.KeptIni
 		if op.File == "" {
 			sink := &simrt.Sink{Name: "iniwriter", Faults: op.WFaults}
 			ip.Write(sink, flags.IniOptions(op.IniOpts))
